@@ -371,6 +371,42 @@ def main():
     if tier != "quick":
         builds.append({"name": "clang-O2", "cc": "clang", "cflags": ("-O2",)})
     st, exp = machine.replay(v, items, builds, sigfn=sig)
+    # the documented symbols (<module>Instance, <module>Instantiate, <module>_<export>) depend on the module's FILE NAME: however the
+    # path to that file is spelled on the command line, header and code are the same bytes
+    import shutil
+    import common
+    from common import run
+    pwd_ = common.scratch("c06path-")
+    try:
+        w2c2_ = common.build_w2c2(os.path.join(pwd_, "bin"))
+        pm = {"types": [{"p": ["i32"], "r": ["i32"]}], "funcs": [{"type": 0, "locals": [], "body": [["local.get", 0], ["i32.const", b32(1)], ["i32.add"], ["end"]]}],
+              "memory": {"min": 1, "max": 1}, "exports": [{"name": "add", "kind": "func", "idx": 0}, {"name": "mem", "kind": "memory", "idx": 0}]}
+        blob = wasm_encode.encode(machine.enc_module(machine.norm_module(pm)))
+        base_out = {}
+        spellings = ["app.wasm", "./app.wasm", "sub/app.wasm", "2024-09/app.wasm", "3rdparty/wasm/app.wasm", "9/app.wasm", "_x/app.wasm", "a.b/c-d/app.wasm", "sub/../sub/app.wasm",
+                     "ABS/sub/app.wasm", "ABS/2024-09/app.wasm", "sub//app.wasm", "-dash/app.wasm", "m/app.wasm", "app/app.wasm"]
+        for sp in spellings:
+            root = os.path.join(pwd_, "r%d" % spellings.index(sp))
+            rel = sp.replace("ABS/", "")
+            os.makedirs(os.path.join(root, os.path.dirname(rel), "x") if False else os.path.join(root, os.path.dirname(rel)), exist_ok=True)
+            if ".." in rel:
+                os.makedirs(os.path.join(root, "sub"), exist_ok=True)
+            open(os.path.join(root, os.path.normpath(rel)), "wb").write(blob)
+            argp = os.path.join(root, rel) if sp.startswith("ABS/") else rel
+            for opts in ((), ("-m",)):
+                rc, so, se = run([w2c2_, *opts, "--", argp, "out.c"] if rel.startswith("-") else [w2c2_, *opts, argp, "out.c"], cwd=root, timeout=60)
+                if rc != 0:
+                    v.deviation("modulename:translate", {"path": sp, "options": list(opts), "stderr": se[-300:]})
+                    continue
+                got = (open(os.path.join(root, "out.c"), "rb").read(), open(os.path.join(root, "out.h"), "rb").read())
+                if sp == "app.wasm":
+                    base_out[opts] = got
+                elif base_out and opts in base_out and got != base_out[opts]:
+                    import re as _re
+                    names = sorted(set(_re.findall(rb"\b(\w*Instantiate)\b", got[1])))
+                    v.deviation("modulename:depends-on-directory-spelling", {"path": sp, "options": list(opts), "instantiate_symbol": [n.decode() for n in names]})
+    finally:
+        shutil.rmtree(pwd_, ignore_errors=True)
     samples = []
     for it in items[:3]:
         m = it["module"]
